@@ -300,7 +300,11 @@ def validate_traces(module, cfg, trace_paths, timeout=900, par=None, env=None, x
         done = re.search(r'^<<"TRACE_DONE", (\d+)>>$', out, re.M)
         if rc != 0 or not done:
             raise Broken("trace validation of %s ended without verdict (rc=%d):\n%s" % (trace_paths[i], rc, out[-3000:]))
-        results[i] = {"path": trace_paths[i], "accepted": not mism, "lines": sorted(set(mism)), "consumed": int(done.group(1)),
+        tags = {}
+        for tg, ln in re.findall(r'^<<"([A-Z_]+)", (\d+)>>$', out, re.M):
+            if tg not in ("MISMATCH", "TRACE_DONE"):
+                tags.setdefault(tg, set()).add(int(ln))
+        results[i] = {"path": trace_paths[i], "accepted": not mism, "lines": sorted(set(mism)), "consumed": int(done.group(1)), "tags": tags,
                       "states": r.distinct, "generated": r.generated, "out": out}
     return results
 
@@ -658,7 +662,7 @@ def death_diag(name, d):
 
 
 def conformance(ck, name, module, cfg, trace_path, deaths, diag_of, nshards=16, min_events=1, timeout=900,
-                env=None, xmx="2g"):
+                env=None, xmx="2g", split_every=None):
     """Validate a recorded trace file with TLC. diag_of(record, execution_lines) -> diagnosis dict.
     Adds violations / known findings to ck; returns number of events."""
     t0 = time.time()
@@ -667,7 +671,12 @@ def conformance(ck, name, module, cfg, trace_path, deaths, diag_of, nshards=16, 
         raise Broken("%s: harness produced only %d events" % (name, len(lines)))
     rejected = 0
     if lines:
-        shards = split_trace(lines, nshards)
+        if split_every:
+            # stateless trace specs (every event is checked on its own): cut anywhere
+            per = max(split_every, (len(lines) + nshards - 1) // nshards)
+            shards = [(i, lines[i:i + per]) for i in range(0, len(lines), per)]
+        else:
+            shards = split_trace(lines, nshards)
         paths = []
         for k, (start, ls) in enumerate(shards):
             p = "%s.shard%d" % (trace_path, k)
@@ -680,10 +689,17 @@ def conformance(ck, name, module, cfg, trace_path, deaths, diag_of, nshards=16, 
             ck.transitions += r["generated"]
             if r["consumed"] != len(ls):
                 raise Broken("%s: TLC consumed %d of %d lines" % (name, r["consumed"], len(ls)))
+            for tg, lns in r["tags"].items():
+                # informational observations of the trace spec (never a verdict)
+                info = ck.extra.setdefault("informational", {}).setdefault(tg, {"count": 0, "of_events": 0, "examples": []})
+                info["count"] += len(lns)
+                for ln in sorted(lns)[:2]:
+                    if len(info["examples"]) < 4:
+                        info["examples"].append(ls[ln - 1][:300])
             for ln in r["lines"]:
                 rejected += 1
                 idx = ln - 1
-                ex = execution_around(ls, idx)
+                ex = [ls[idx]] if split_every else execution_around(ls, idx)
                 try:
                     rec = json.loads(ls[idx])
                 except Exception:
